@@ -23,7 +23,7 @@ RULE = ("settings {127.0.0.1, 0.0.0.0} x free ports x endpoints; inputs: valid G
 ASSUMPTIONS = ["stock asyncio loop, real loopback sockets, real time; verdicts never depend on wall-clock deadlines: a response is awaited to EOF under a 5 s watchdog whose expiry makes the case inconclusive",
                "status codes are demanded only for well-formed requests delivered in one segment"]
 EVAL_COUNTER = "inputs_judged"
-REQUIRED = ["inputs_judged", "probes_ok", "wellformed_checked", "malformed_sent", "status_flips", "port_lifetime_checks", "jobs_completed"]
+REQUIRED = ["inputs_judged", "probes_ok", "wellformed_checked", "malformed_sent", "status_flips", "port_lifetime_checks", "jobs_completed", "shutdowns_with_lingering_connections"]
 CASE_TIMEOUT = 120
 
 
@@ -33,7 +33,9 @@ def gen_cases(tier, seed):
     cases = []
     for i in range(n):
         cases.append({"seed": rnd.randrange(10**6), "address": rnd.choice(["127.0.0.1", "127.0.0.1", "0.0.0.0"]), "endpoint": rnd.choice(["/healthz", "/health", "/h/x-1", "/"]),
-                      "fail_at": rnd.choice(["never", "start", "start", "middle", "middle", "end"]), "slow_start": rnd.choice([0, 0, 0.15, 0.3]), "ninputs": {"quick": 30, "thorough": 60}[tier], "end": rnd.choice(["signal", "signal", "cancel"])})
+                      "fail_at": rnd.choice(["never", "start", "start", "middle", "middle", "end"]), "slow_start": rnd.choice([0, 0, 0.15, 0.3]), "ninputs": {"quick": 30, "thorough": 60}[tier], "end": rnd.choice(["signal", "signal", "cancel"]),
+                      # connections a client keeps open while the worker stops: idle, half a request, a served one it never closes
+                      "linger": rnd.sample(["idle", "partial", "idle", "binary", "slow_reader"], rnd.choice([0, 1, 2, 4]))})
     return cases
 
 
@@ -348,6 +350,28 @@ async def scenario(case, out, stats, fps, samples, incon):
     if case["fail_at"] == "end":
         await flip()
         await probe("after-flip")
+    # ---- clients that keep their connections open while the worker stops
+    lingering = []
+    for lk in case.get("linger", ()):
+        try:
+            lr, lw = await asyncio.wait_for(asyncio.open_connection("127.0.0.1", port), 3.0)
+        except Exception:  # noqa: BLE001
+            continue
+        if lk == "partial":
+            lw.write(f"GET {endpoint} HT".encode())
+        elif lk == "binary":
+            lw.write(bytes(rnd.randrange(256) for _ in range(40)))
+        elif lk == "slow_reader":
+            lw.write(good)  # a complete request whose answer the client never reads, never closing either
+        lingering.append((lk, lr, lw))
+        stats["lingering_connections"] += 1
+    if lingering:
+        await asyncio.sleep(0.05)
+        resp, how = await talk(port, [good], read_timeout=3.0)
+        stats["inputs_judged"] += 1
+        want = expected["code"]
+        if resp is None or status_of(resp) != want:
+            out.append(V("wrong_status", "while-lingering", f"with {[k for k, _, _ in lingering]} connections open GET {endpoint} -> {status_of(resp) if resp else how}, expected {want}"))
     # ---- end of the run: port closes
     stats["jobs_completed"] += done["ok"]
     if prod:
@@ -358,7 +382,10 @@ async def scenario(case, out, stats, fps, samples, incon):
         try:
             await asyncio.wait_for(run_task, 12)
         except asyncio.TimeoutError:
-            incon.append("run() did not return 12 s after the signal")
+            if lingering:
+                out.append(V("port_lifetime", "run-hung", f"Worker.run() had not returned 12 s after the stop signal (graceful 2 s) while clients kept {[k for k, _, _ in lingering]} connections open"))
+            else:
+                incon.append("run() did not return 12 s after the signal")
             run_task.cancel()
         except Exception as exc:  # noqa: BLE001
             out.append(V("port_lifetime", "run-raised", f"Worker.run raised {exc!r}"))
@@ -367,9 +394,14 @@ async def scenario(case, out, stats, fps, samples, incon):
         run_task.cancel()
         try:
             await asyncio.wait_for(run_task, 5)
+        except asyncio.TimeoutError:
+            if lingering:
+                out.append(V("port_lifetime", "cancel-hung", f"a cancelled Worker.run() was still not over 5 s later while clients kept {[k for k, _, _ in lingering]} connections open"))
         except (asyncio.CancelledError, Exception):  # noqa: BLE001
             pass
         ctx = "after-cancelled-run"
+    if lingering:
+        stats["shutdowns_with_lingering_connections"] += 1
     await asyncio.sleep(0.05)
     stats["port_lifetime_checks"] += 1
     resp, how = await talk(port, [good], read_timeout=1.0)
@@ -379,8 +411,13 @@ async def scenario(case, out, stats, fps, samples, incon):
             await worker.health_check_server.stop()
         except Exception:  # noqa: BLE001
             pass
+    for _, _, lw in lingering:
+        try:
+            lw.close()
+        except Exception:  # noqa: BLE001
+            pass
     if len(samples) < 1:
-        samples.append({"address": case["address"], "endpoint": endpoint, "fail_at": case["fail_at"], "inputs": [k for k, _, _ in inputs][:12], "jobs_completed": done["ok"], "end": case["end"]})
+        samples.append({"linger": list(case.get("linger", ())), "address": case["address"], "endpoint": endpoint, "fail_at": case["fail_at"], "inputs": [k for k, _, _ in inputs][:12], "jobs_completed": done["ok"], "end": case["end"]})
     try:
         await conn.disconnect()
     except Exception:  # noqa: BLE001
